@@ -91,10 +91,10 @@ def run(ctx):
         s1 = ctx.tlc("LoginPluginImpl", "LoginPluginImpl_sched.cfg", workers=1, count=False,
                      timeout=1800).printed_json("SCHED")
         s3 = ctx.tlc("LoginPluginImpl", "LoginPluginImpl_sched3.cfg", workers=1, count=False,
-                     simulate=4000, depth=45, timeout=1800).printed_json("SCHED")
+                     simulate=1200, depth=45, timeout=1800).printed_json("SCHED")
         rnd = random.Random(ctx.seed)
         rnd.shuffle(s1)
-        scheds = s1[:3000] + s3
+        scheds = s1[:1200] + s3
     # only schedules with real concurrency or at least one call beyond loginEventFired
     scheds = [s for s in scheds if s["prog"]["gor"] or s["prog"]["resps"] or s["prog"]["pre"]]
     with open(ctx.path("sched.json"), "w") as fh:
@@ -113,7 +113,7 @@ def run(ctx):
         progs = ctx.tlc("LoginPluginImpl", "LoginPluginImpl_prog.cfg", workers=1, count=False,
                         timeout=1800).printed_json("PROG")
     rnd.shuffle(progs)
-    live = [dict(p) for p in progs[:ctx.pick(90, 2500)]]
+    live = [dict(p) for p in progs[:ctx.pick(90, 1200)]]
     # the directed shape of the late-send scenario is always part of the sample
     live.append({"pre": 0, "resps": [{"id": 1, "ok": True, "chain": False}], "gor": ["h1"]})
     live.append({"pre": 1, "resps": [{"id": 1, "ok": True, "chain": False}, {"id": 2, "ok": False, "chain": False}],
@@ -127,7 +127,7 @@ def run(ctx):
         if k not in seen:
             seen.add(k)
             rel.append(p)
-    rel = rel[:ctx.pick(30, 800)]
+    rel = rel[:ctx.pick(30, 400)]
     rel.append({"pre": 3, "resps": [{"id": 3, "ok": True, "chain": False}, {"id": 1, "ok": False, "chain": False},
                                     {"id": 3, "ok": True, "chain": False}, {"id": 2, "ok": True, "chain": False}],
                 "gor": []})
